@@ -224,6 +224,9 @@ impl Property for RefProp {
             // a case of the cell-typing part (matrix / near misses under the monitor)
             return crate::props::soundness::C13_CELLS.check_case(case, stats);
         }
+        if case["kind"].as_str() == Some("coverage") {
+            return check_coverage(case, stats);
+        }
         if case["kind"].as_str() == Some("probe") {
             // a fixed program with its documented outcome and a signature of its own
             let text = case["text"].as_str().unwrap_or("");
@@ -325,6 +328,80 @@ impl Property for RefProp {
     }
 }
 
+/// C12, "an accepted match always has such an arm": matches without a default arm over a compound
+/// type of a union, one type arm per member. Whether such a match covers the type depends on the
+/// constructor (tuples and structs distribute over unions of their components, arrays, cells,
+/// functions and iterators do not). Whatever the checker accepts is run on member-wise and mixed values.
+fn coverage_cases() -> Vec<Json> {
+    let unions: [&[(&str, &str)]; 4] = [
+        &[("int", "1"), ("string", "\"a\"")],
+        &[("int", "1"), ("float", "2.5"), ("string", "\"a\"")],
+        &[("[int]", "[1]"), ("string", "\"a\"")],
+        &[("int", "1"), ("()", "()")],
+    ];
+    let mut out = vec![];
+    for u in unions {
+        let ut = u.iter().map(|(t, _)| *t).collect::<Vec<_>>().join("|");
+        let (v1, v2) = (u[0].1, u[1].1);
+        // (scrutinee type, arm types, values of the scrutinee type)
+        let mut shapes: Vec<(String, Vec<String>, Vec<String>)> = vec![];
+        let per = |f: &dyn Fn(&str) -> String| u.iter().map(|(t, _)| f(t)).collect::<Vec<String>>();
+        let vals = |f: &dyn Fn(&str) -> String| u.iter().map(|(_, v)| f(v)).collect::<Vec<String>>();
+        shapes.push((ut.clone(), per(&|t| t.to_string()), vals(&|v| v.to_string())));
+        shapes.push((ut.clone(), per(&|t| t.to_string())[..u.len() - 1].to_vec(), vals(&|v| v.to_string())));
+        let mut arr_vals = vals(&|v| format!("[{v}]"));
+        arr_vals.extend([format!("[{v1}, {v2}]"), "[]".to_string()]);
+        shapes.push((format!("[{ut}]"), per(&|t| format!("[{t}]")), arr_vals));
+        shapes.push((format!("[[{ut}]]"), per(&|t| format!("[[{t}]]")), vec![format!("[[{v1}], [{v2}]]"), format!("[[{v1}, {v2}]]"), format!("[[{v1}]]"), "[[]]".into()]));
+        shapes.push((format!("mut ({ut})"), per(&|t| format!("mut {}", if t.contains('|') { format!("({t})") } else { t.to_string() })), vals(&|v| format!("mut {ut} {v}"))));
+        shapes.push((format!("({ut}, int)"), per(&|t| format!("({t}, int)")), vals(&|v| format!("({v}, 1)"))));
+        shapes.push((format!("({ut}, {ut})"), per(&|t| format!("({t}, {t})")), vec![format!("({v1}, {v1})"), format!("({v1}, {v2})"), format!("({v2}, {v1})")]));
+        shapes.push((format!("struct{{a: {ut}}}"), per(&|t| format!("struct{{a: {t}}}")), vals(&|v| format!("struct{{a := {v}}}"))));
+        shapes.push((
+            format!("struct{{a: {ut}, b: {ut}}}"),
+            per(&|t| format!("struct{{a: {t}, b: {t}}}")),
+            vec![format!("struct{{a := {v1}, b := {v1}}}"), format!("struct{{a := {v1}, b := {v2}}}")],
+        ));
+        shapes.push((format!("()->{ut}"), per(&|t| format!("()->{t}")), vals(&|v| format!("() -> {ut} {{ return {v}; }}"))));
+        shapes.push((format!("()->(bool, {ut})"), per(&|t| format!("()->(bool, {t})")), vec![format!("[{v1}, {v2}]~"), format!("[{v1}]~")]));
+        shapes.push((format!("[mut ({ut})]"), per(&|t| format!("[mut {}]", if t.contains('|') { format!("({t})") } else { t.to_string() })), vec![format!("[mut {ut} {v1}]"), format!("[mut {ut} {v1}, mut {ut} {v2}]")]));
+        shapes.push((format!("[({ut}, int)]"), per(&|t| format!("[({t}, int)]")), vec![format!("[({v1}, 1), ({v2}, 1)]"), format!("[({v1}, 1)]")]));
+        shapes.push((format!("[struct{{a: {ut}}}]"), per(&|t| format!("[struct{{a: {t}}}]")), vec![format!("[struct{{a := {v1}}}, struct{{a := {v2}}}]")]));
+        for (ty, arms, values) in shapes {
+            let arm_text: String = arms.iter().enumerate().map(|(k, a)| format!("a{k}: {a} => {k}, ")).collect();
+            for v in values {
+                for wrapper in 0..2 {
+                    let program = if wrapper == 0 {
+                        format!("f := (x: {ty}) -> int {{ r := match x {{ {arm_text}}}; return r; }}; f({v})")
+                    } else {
+                        format!("f := (x: {ty}) -> int {{ match x {{ {} }}; return -1; }}; f({v})", arms.iter().enumerate().map(|(k, a)| format!("a{k}: {a} => {{ return {k}; }}, ")).collect::<String>())
+                    };
+                    out.push(json!({"kind": "coverage", "text": program, "arms": arms.len()}));
+                }
+            }
+        }
+    }
+    out
+}
+
+fn check_coverage(case: &Json, stats: &mut Stats) -> Verdict {
+    let text = case["text"].as_str().unwrap_or("");
+    let arms = case["arms"].as_i64().unwrap_or(0);
+    stats.eval();
+    match crate::exec::run_program(text, false).outcome {
+        Outcome::Rejected(_) => {
+            stats.label("match coverage: rejected by the checker");
+            Verdict::Pass
+        }
+        Outcome::Value(simplesl::variable::Variable::Int(k)) if (0..arms).contains(&k) => {
+            stats.label("match coverage: accepted, an arm ran");
+            stats.nontrivial(text);
+            Verdict::Pass
+        }
+        o => fail("C12:coverage:no-arm", format!("`{text}` was accepted, but running it gave {} instead of the index of an arm", o.short())),
+    }
+}
+
 /// (properties, signature tail, program, documented outcome)
 const PROBES: [(&[&str], &str, &str, &str); 2] = [
     (
@@ -351,6 +428,11 @@ pub fn run(session: &Session, prop: &'static RefProp, rule: &str) -> i32 {
     }
     if prop.id == "C13" && !session.stopped() {
         crate::props::soundness::run_cells(session);
+    }
+    if prop.id == "C12" && !session.stopped() {
+        let cases = coverage_cases();
+        session.set_extra("match_coverage_cases", json!(cases.len()));
+        session.run_enum(prop, cases);
     }
     if !session.stopped() {
         session.run_tapes(prop, session.tier.of(40_000, 2_000_000), 600, 0);
